@@ -125,6 +125,32 @@ static void part_proto(const std::vector<unsigned>& ns, unsigned depth, unsigned
     R.bound_done("proto: both models x n x noise{off,on} x 2 modulations x every {apply, flush} sequence up to depth " + std::to_string(depth) + " (queue length " + std::to_string(steps) + ")");
 }
 
+// long runs: the recorded waveform keeps the configured frequency (bound: single-precision rounding of the sine's argument)
+static void part_wave(unsigned steps) {
+    for (int model = 0; model < 2; model++) for (int v = 0; v < 3; v++) {
+        Par q{8, 4, model, 0};
+        std::string kase = mcx::Desc()("part", "wave")("model", MN[model])("steps", steps)("v", v).str();
+        if (!R.mine(kase)) continue;
+        set_size(8, 1);
+        auto in = mkps_shift(8, 12, 0, 0, {1.f}), out = mkps_shift(8, 12, 0, 0, {1.f});
+        Phys p = phys(in, 0);
+        const float modampl = 0.0174533f; const double modinc = v == 0 ? 0.000888 : v == 1 ? 0.0123457 : 0.21;
+        auto dyn = mkdyn(in, out, q, p, 0.f, 0.f, modampl, modinc, steps);
+        auto cp = dyn->_next_modulation; const float sync = dyn->_syncphase; unsigned k = 0; double worst = 0;
+        R.eval(kase, mcx::fnvs(kase), false);
+        if (cp.size() != steps) { R.violate(std::string("C19/waveform/") + MN[model] + "/queue-length", kase, std::to_string(cp.size())); continue; }
+        while (!cp.empty()) {
+            const double arg = 2 * M_PI * modinc * k, want = (double)modampl * std::sin(arg), got = (double)cp.front()[0] - sync;
+            const double tol = modampl * (8 * EPS * (arg + 1)) + 4e-7;
+            worst = std::max(worst, std::fabs(got - want) / tol);
+            if (std::fabs(got - want) > tol || cp.front()[1] != 1.f) { char b[200]; snprintf(b, 200, "entry %u: phase-sync = %.9g, configured sine %.9g (argument %.6g rad), amplitude %.9g", k, got, want, arg, cp.front()[1]); R.violate(std::string("C19/waveform/") + MN[model] + "/frequency-or-amplitude", kase, b); break; }
+            cp.pop(); k++;
+        }
+        R.maxnum("worst_waveform_error_over_tol", worst);
+    }
+    R.bound_done("wave: both models x 3 modulation frequencies x " + std::to_string(steps) + " steps, every queue entry against the configured sine");
+}
+
 int main(int argc, char** argv) {
     R.init(argc, argv, "C19", "C19_dynrf"); quiet();
     R.rule = "zero: one evaluation = one step of dynamic vs static map; proto: one evaluation = one call sequence replayed on a fresh real DynamicRFKickMap; distinct = FNV of case (+history/output)";
@@ -132,5 +158,6 @@ int main(int argc, char** argv) {
     const bool T = R.thorough();
     part_zero(T ? std::vector<unsigned>{8, 16, 17, 32, 33} : std::vector<unsigned>{8});
     part_proto(T ? std::vector<unsigned>{8, 16, 17} : std::vector<unsigned>{8}, T ? 12 : 7, T ? 8 : 6);
+    part_wave(T ? 300000 : 30000);
     return R.finish();
 }
